@@ -1,9 +1,10 @@
-package verifcid
+package blockservice
 
 import (
 	"errors"
 
 	"github.com/ipfs/boxo/internal/verifrt"
+	"github.com/ipfs/boxo/verifcid"
 	cid "github.com/ipfs/go-cid"
 	mh "github.com/multiformats/go-multihash"
 )
@@ -114,17 +115,17 @@ func zzJudge(err error, allowed bool, n, min, max int) {
 	verifrt.Observe("accepted", err == nil)
 	if !allowed {
 		verifrt.Assert("C04.disallowed-hash-rejected", err != nil)
-		verifrt.Assert("C04.disallowed-hash-error-class", errors.Is(err, ErrPossiblyInsecureHashFunction))
+		verifrt.Assert("C04.disallowed-hash-error-class", errors.Is(err, verifcid.ErrPossiblyInsecureHashFunction))
 		return
 	}
 	if n < min {
 		verifrt.Assert("C04.short-digest-rejected", err != nil)
-		verifrt.Assert("C04.short-digest-error-class", errors.Is(err, ErrDigestTooSmall))
+		verifrt.Assert("C04.short-digest-error-class", errors.Is(err, verifcid.ErrDigestTooSmall))
 		return
 	}
 	if n > max {
 		verifrt.Assert("C04.long-digest-rejected", err != nil)
-		verifrt.Assert("C04.long-digest-error-class", errors.Is(err, ErrDigestTooLarge))
+		verifrt.Assert("C04.long-digest-error-class", errors.Is(err, verifcid.ErrDigestTooLarge))
 		return
 	}
 	verifrt.Assert("C04.valid-cid-accepted", err == nil)
@@ -137,7 +138,7 @@ func HarnessC04Default() {
 	verifrt.Assume(n >= 0)
 	verifrt.Assume(n <= verifrt.Param("LMAX", 300))
 	c := zzCidFor(code, n)
-	err := ValidateCid(DefaultAllowlist, c)
+	err := verifcid.ValidateCid(verifcid.DefaultAllowlist, c)
 	zzJudge(err, zzRefDefaultAllowed(code), n, zzRefDefaultMin(code), zzRefDefaultMax(code))
 	verifrt.Reach("end")
 }
@@ -171,20 +172,20 @@ func HarnessC04Custom() {
 		inSet, setVal = true, v2
 	}
 
-	var al Allowlist
+	var al verifcid.Allowlist
 	var allowed bool
 	var min, max int
 	switch verifrt.NondetRange("parent", 0, 4) {
 	case 0: // NewAllowlist: unknown codes are rejected, default limits
-		al = NewAllowlist(set)
+		al = verifcid.NewAllowlist(set)
 		allowed = inSet && setVal
 		min, max = zzRefDefaultMin(code), zzRefDefaultMax(code)
 	case 1: // overriding with a nil parent behaves like NewAllowlist
-		al = NewOverridingAllowlist(nil, set)
+		al = verifcid.NewOverridingAllowlist(nil, set)
 		allowed = inSet && setVal
 		min, max = zzRefDefaultMin(code), zzRefDefaultMax(code)
 	case 2: // overriding the default list
-		al = NewOverridingAllowlist(DefaultAllowlist, set)
+		al = verifcid.NewOverridingAllowlist(verifcid.DefaultAllowlist, set)
 		allowed = zzRefDefaultAllowed(code)
 		if inSet {
 			allowed = setVal
@@ -192,7 +193,7 @@ func HarnessC04Custom() {
 		min, max = zzRefDefaultMin(code), zzRefDefaultMax(code)
 	case 3: // overriding a caller-supplied list with its own limits
 		p := zzParent{code: verifrt.NondetU64("pcode"), min: verifrt.NondetInt("pmin"), max: verifrt.NondetInt("pmax")}
-		al = NewOverridingAllowlist(p, set)
+		al = verifcid.NewOverridingAllowlist(p, set)
 		allowed = p.refAllowed(code)
 		if inSet {
 			allowed = setVal
@@ -200,7 +201,7 @@ func HarnessC04Custom() {
 		min, max = p.min, p.max
 	case 4: // two levels: overriding a NewAllowlist
 		pk, pv := verifrt.NondetU64("pk"), verifrt.NondetBool("pv")
-		al = NewOverridingAllowlist(NewAllowlist(map[uint64]bool{pk: pv}), set)
+		al = verifcid.NewOverridingAllowlist(verifcid.NewAllowlist(map[uint64]bool{pk: pv}), set)
 		allowed = code == pk && pv
 		if inSet {
 			allowed = setVal
@@ -208,7 +209,7 @@ func HarnessC04Custom() {
 		min, max = zzRefDefaultMin(code), zzRefDefaultMax(code)
 	}
 	c := zzCidFor(code, n)
-	err := ValidateCid(al, c)
+	err := verifcid.ValidateCid(al, c)
 	zzJudge(err, allowed, n, min, max)
 	verifrt.Reach("end")
 }
@@ -220,7 +221,7 @@ func HarnessC04Direct() {
 	verifrt.Assume(n >= 0)
 	verifrt.Assume(n <= verifrt.Param("LMAX", 300))
 	p := zzParent{code: verifrt.NondetU64("pcode"), min: verifrt.NondetInt("pmin"), max: verifrt.NondetInt("pmax")}
-	err := ValidateCid(p, zzCidFor(code, n))
+	err := verifcid.ValidateCid(p, zzCidFor(code, n))
 	zzJudge(err, p.refAllowed(code), n, p.min, p.max)
 	verifrt.Reach("end")
 }
@@ -258,7 +259,7 @@ func HarnessC04RealCid() {
 		}
 		c = cid.NewCidV0(m)
 	}
-	err := ValidateCid(DefaultAllowlist, c)
+	err := verifcid.ValidateCid(verifcid.DefaultAllowlist, c)
 	zzJudge(err, zzRefDefaultAllowed(code), n, zzRefDefaultMin(code), zzRefDefaultMax(code))
 	verifrt.Reach("end")
 }
